@@ -52,6 +52,13 @@ def mutations(f, c, r, exhaustive=False, per_region=2):
             g = bytearray(f)
             g[o] = v
             out.append(Mut(bytes(g), "flip/" + region(o, c) + ("/in-range" if o in (8, 9) and v <= (4 if o == 8 else 2) else "/out-of-range" if o in (8, 9) else ""), o, o + 1, "byte %d: %02x -> %02x" % (o, f[o], v)))
+    # the reserved bytes just before the IV area set to small numbers (a count or a flag a later format revision might keep there)
+    for o in (42, 46, 47):
+        for v in (1, 2, 3, 5, 16):
+            if f[o] != v:
+                g = bytearray(f)
+                g[o] = v
+                out.append(Mut(bytes(g), "flip/" + region(o, c) + "/small-number", o, o + 1, "byte %d: %02x -> %02x" % (o, f[o], v)))
     # truncations at every header boundary and around block/chunk boundaries
     cuts = set([0, 1, 7, 8, 9, 10, 10 + hl, 47, 48, 49, 67, 68, 73, 74, 75, tm - 1, tm, tm + 1, tm + 15, tm + 16, tm + 17, n - 17, n - 16, n - 15, n - 1])
     if exhaustive:
